@@ -104,12 +104,32 @@ returned with an ``'unparsed'`` key carrying its source text.
 STATIC CHECKS
 -------------
 ``static_check`` / ``static_check_text`` implement the part of "the Go
-toolchain would accept this file" that can be decided without type checking:
-lexical well-formedness, bracket balance, the grammar above, imports before
-other declarations, duplicate declarations / methods / struct fields / case
-values, unused imports, unused local variables declared with ``:=`` are NOT
-checked, undeclared identifiers, unknown fields on ``m.`` selector chains,
-unknown names in imported packages.
+toolchain would accept this file" that can be decided without full type
+checking: lexical well-formedness, bracket balance, the grammar above,
+imports before all other declarations, duplicate top-level declarations /
+methods / struct fields / parameters / case values, a struct field and a
+method of the same type with the same name, a top-level name equal to an
+import name, unused imports (an import counts as used when ``name.X`` occurs
+in a type or expression and ``name`` is not shadowed), locals declared and
+never used, ``:=`` without new variables, undeclared identifiers in type and
+expression positions, unknown fields/methods on selector chains whose static
+type is known from declarations of this file (receiver, parameters, struct
+fields, array elements) and, when the imported files are supplied, unknown,
+unexported or non-type names in ``pkg.Name``.  Not checked: types of
+expressions (the evaluator does that for the functions it runs), missing
+returns, unreachable code, initialisation cycles.  An import without alias is
+assumed to bind the last path element (true for the standard library
+packages the generator uses; the runtime library is always imported with the
+explicit alias ``bp``).
+
+PUBLIC API
+----------
+parse_file, tokenize, type_str, expr_str, stmt_str, GoFile/GoConst/GoVar/
+GoType/GoField/GoFunc, size_constants, size_methods, processor_tree,
+accessor_tables, GoEval (zero_value, check_value, run_encode, run_decode,
+call, call_method, has_func, resolve_type), load_runtime_helpers /
+RuntimeHelpers (call, names, signature), static_check, static_check_text,
+decode_go_string_literal, go_literal_ok, GoParseError, EvalError.
 """
 
 from __future__ import annotations
@@ -835,9 +855,6 @@ class _Parser:
 
         def spec() -> None:
             nt = self.expect_ident()
-            if self.is_op("["):
-                # could be an array type or generics; decide: `[` `]` or `[` expr `]` Type
-                pass
             is_alias = False
             if self.is_op("="):
                 self.i += 1
@@ -864,7 +881,6 @@ class _Parser:
     def parse_params(self) -> List[Tuple[str, tuple]]:
         """Parses `( ... )` parameter list; returns [(name, type)] (name '' if unnamed)."""
         self.expect_op("(")
-        entries: List[Tuple[Optional[tuple], int]] = []  # (type-or-name candidates)
         raw: List[Tuple[Optional[str], Optional[tuple]]] = []
         while not self.is_op(")"):
             if self.is_op("..."):
@@ -891,7 +907,6 @@ class _Parser:
             elif not self.is_op(")"):
                 raise self.err(f"expected ',' or ')', found {self.describe(self.toks[self.i])}")
         self.expect_op(")")
-        del entries
         named = any(n is not None and t is not None for n, t in raw)
         out: List[Tuple[str, tuple]] = []
         if named:
@@ -988,7 +1003,6 @@ class _Parser:
                     return ("slice", self.parse_type())
                 if self.is_op("..."):
                     raise self.err("[...]T arrays are not supported")
-                self.nolit += 0
                 length = self.parse_expr()
                 self.expect_op("]")
                 return ("array", length, self.parse_type())
@@ -1272,56 +1286,53 @@ class _Parser:
     def parse_for(self) -> tuple:
         line = self.expect_kw("for")[2]
         self.nolit += 1
-        try:
-            if self.is_op("{"):
-                self.nolit -= 1
-                return ("for", None, None, None, self.parse_block(), line)
-            if self.is_kw("range"):
-                self.i += 1
-                x = self.parse_expr()
-                self.nolit -= 1
-                return ("range", None, None, False, x, self.parse_block(), line)
-            init = cond = post = None
-            if not self.is_op(";"):
-                # may be `k, v := range x`, `cond`, or init statement
-                save = self.i
-                lhs = [self.parse_expr()]
-                while self.is_op(","):
-                    self.i += 1
-                    lhs.append(self.parse_expr())
-                t = self.toks[self.i]
-                if t[0] == "op" and t[1] in ("=", ":=") and self.toks[self.i + 1][0] == "kw" \
-                        and self.toks[self.i + 1][1] == "range":
-                    self.i += 2
-                    x = self.parse_expr()
-                    if len(lhs) > 2:
-                        raise self.err("range clause permits at most two iteration variables", t)
-                    key = lhs[0]
-                    val = lhs[1] if len(lhs) > 1 else None
-                    self.nolit -= 1
-                    return ("range", key, val, t[1] == ":=", x, self.parse_block(), line)
-                self.i = save
-                init = self.parse_simple_stmt()
-            if self.is_op("{"):
-                # `for cond {`
-                if init is None or init[0] != "expr":
-                    raise self.err("for condition must be an expression")
-                self.nolit -= 1
-                return ("for", None, init[1], None, self.parse_block(), line)
-            self.expect_op(";")
-            if not self.is_op(";"):
-                st = self.parse_simple_stmt()
-                if st[0] != "expr":
-                    raise self.err("for condition must be an expression")
-                cond = st[1]
-            # the semicolon before `{` may be an explicit one: `for j := 0; j < n; {`
-            self.expect_op(";")
-            if not self.is_op("{"):
-                post = self.parse_simple_stmt()
+        if self.is_op("{"):
             self.nolit -= 1
-            return ("for", init, cond, post, self.parse_block(), line)
-        except GoParseError:
-            raise
+            return ("for", None, None, None, self.parse_block(), line)
+        if self.is_kw("range"):
+            self.i += 1
+            x = self.parse_expr()
+            self.nolit -= 1
+            return ("range", None, None, False, x, self.parse_block(), line)
+        init = cond = post = None
+        if not self.is_op(";"):
+            # may be `k, v := range x`, `cond`, or init statement
+            save = self.i
+            lhs = [self.parse_expr()]
+            while self.is_op(","):
+                self.i += 1
+                lhs.append(self.parse_expr())
+            t = self.toks[self.i]
+            if t[0] == "op" and t[1] in ("=", ":=") and self.toks[self.i + 1][0] == "kw" \
+                    and self.toks[self.i + 1][1] == "range":
+                self.i += 2
+                x = self.parse_expr()
+                if len(lhs) > 2:
+                    raise self.err("range clause permits at most two iteration variables", t)
+                key = lhs[0]
+                val = lhs[1] if len(lhs) > 1 else None
+                self.nolit -= 1
+                return ("range", key, val, t[1] == ":=", x, self.parse_block(), line)
+            self.i = save
+            init = self.parse_simple_stmt()
+        if self.is_op("{"):
+            # `for cond {`
+            if init is None or init[0] != "expr":
+                raise self.err("for condition must be an expression")
+            self.nolit -= 1
+            return ("for", None, init[1], None, self.parse_block(), line)
+        self.expect_op(";")
+        if not self.is_op(";"):
+            st = self.parse_simple_stmt()
+            if st[0] != "expr":
+                raise self.err("for condition must be an expression")
+            cond = st[1]
+        # the semicolon before `{` may be an explicit one: `for j := 0; j < n; {`
+        self.expect_op(";")
+        if not self.is_op("{"):
+            post = self.parse_simple_stmt()
+        self.nolit -= 1
+        return ("for", init, cond, post, self.parse_block(), line)
 
     # -- expressions --------------------------------------------------------
     def parse_expr(self, min_prec: int = 1) -> tuple:
@@ -1397,7 +1408,9 @@ class _Parser:
                 self.nolit = saved
                 self.expect_op(")")
                 x = ("call", x, args, t[2])
-            elif v == "{" and self.nolit == 0 and _is_literal_type(x):
+            elif v == "{" and _is_literal_type(x) and (self.nolit == 0 or x[0] == "type"):
+                # like go/parser: in control clause headers only literals whose type is
+                # not a bare (qualified) name are recognised
                 ty = _expr_to_type(x)
                 x = self.parse_complit_body(ty, t[2])
             else:
@@ -2031,3 +2044,1886 @@ def accessor_tables(gofile: GoFile, type_name: str) -> dict:
                 cases.append(info)
         out["default"][table] = has_default
     return out
+
+
+# ---------------------------------------------------------------------------
+# C. Typed evaluator
+# ---------------------------------------------------------------------------
+
+class _RT:
+    """A resolved Go type.  Identity of the object is identity of the type."""
+
+    __slots__ = ("key", "kind", "bits", "signed", "mask", "half", "lo", "hi", "elem",
+                 "length", "fields", "named", "ukey")
+
+    def __init__(self, key: str, kind: str) -> None:
+        self.key = key          # printable unique name
+        self.kind = kind        # int | bool | string | array | slice | struct | ptr | opaque
+        self.bits = 0
+        self.signed = False
+        self.mask = self.half = self.lo = self.hi = 0
+        self.elem: Optional["_RT"] = None
+        self.length = 0
+        self.fields: Dict[str, "_RT"] = {}
+        self.named = False
+        self.ukey = key         # key of the underlying type
+
+    def set_int(self, bits: int, signed: bool) -> "_RT":
+        self.kind, self.bits, self.signed = "int", bits, signed
+        self.mask = (1 << bits) - 1
+        self.half = 1 << (bits - 1)
+        self.lo = -self.half if signed else 0
+        self.hi = self.half - 1 if signed else self.mask
+        return self
+
+    def copy_from(self, u: "_RT") -> None:
+        for a in ("kind", "bits", "signed", "mask", "half", "lo", "hi", "elem", "length",
+                  "fields", "ukey"):
+            setattr(self, a, getattr(u, a))
+
+    def __repr__(self) -> str:
+        return f"<go type {self.key}>"
+
+
+class _Untyped:
+    def __init__(self, name: str, kind: str) -> None:
+        self.key = "untyped " + name
+        self.kind = kind
+        self.named = False
+        self.ukey = self.key
+
+    def __repr__(self) -> str:
+        return f"<{self.key}>"
+
+
+U_INT = _Untyped("int", "int")
+U_BOOL = _Untyped("bool", "bool")
+U_STR = _Untyped("string", "string")
+U_NIL = _Untyped("nil", "nil")
+
+# A compiled expression is a triple (type, constant value, closure):
+#   untyped constant      : (U_INT|U_BOOL|U_STR|U_NIL, value, None)
+#   untyped bool variable : (U_BOOL, None, fn)        e.g. the result of `a < b`
+#   typed value           : (_RT, None, fn)
+_CE = Tuple[Any, Any, Optional[Callable[[list], Any]]]
+
+_BREAK = ("break",)
+_CONTINUE = ("continue",)
+
+
+def _clone(v: Any) -> Any:
+    if isinstance(v, list):
+        return [_clone(x) for x in v]
+    if isinstance(v, dict):
+        return {k: _clone(x) for k, x in v.items()}
+    return v
+
+
+def _wrap_fn(rt: _RT) -> Callable[[int], int]:
+    mask, half = rt.mask, rt.half
+    if rt.signed:
+        return lambda v: ((v + half) & mask) - half
+    return lambda v: v & mask
+
+
+def _value_binop(op: str, rt: _RT, line: int) -> Callable[[Any, Any], Any]:
+    """f(a, b) for two in-range values of integer/bool/string type rt (for
+    shifts b is the already validated, non-negative count)."""
+    kind = rt.kind
+    if kind == "string":
+        if op == "+":
+            return lambda a, b: a + b
+        raise EvalError(f"line {line}: operator {op} not defined on {rt.key}")
+    if kind == "bool":
+        raise EvalError(f"line {line}: operator {op} not defined on {rt.key}")
+    if kind != "int":
+        raise EvalError(f"line {line}: operator {op} not defined on {rt.key}")
+    mask, half, bits, signed = rt.mask, rt.half, rt.bits, rt.signed
+    if op == "&":
+        return lambda a, b: a & b
+    if op == "|":
+        return lambda a, b: a | b
+    if op == "^":
+        return lambda a, b: a ^ b
+    if op == "&^":
+        return lambda a, b: a & ~b
+    if op == ">>":
+        return lambda a, b: a >> b
+    if signed:
+        if op == "+":
+            return lambda a, b: ((a + b + half) & mask) - half
+        if op == "-":
+            return lambda a, b: ((a - b + half) & mask) - half
+        if op == "*":
+            return lambda a, b: ((a * b + half) & mask) - half
+        if op == "<<":
+            return lambda a, b: (((a << (b if b < bits else bits)) + half) & mask) - half
+        if op == "/":
+            return lambda a, b: ((_trunc_div(a, b) + half) & mask) - half
+        if op == "%":
+            return _trunc_rem
+    else:
+        if op == "+":
+            return lambda a, b: (a + b) & mask
+        if op == "-":
+            return lambda a, b: (a - b) & mask
+        if op == "*":
+            return lambda a, b: (a * b) & mask
+        if op == "<<":
+            return lambda a, b: (a << (b if b < bits else bits)) & mask
+        if op == "/":
+            return _trunc_div
+        if op == "%":
+            return _trunc_rem
+    raise EvalError(f"line {line}: unsupported operator {op}")
+
+
+class _CompiledFunc:
+    __slots__ = ("name", "params", "result", "nslots", "body", "ready", "copy_params")
+
+    def __init__(self, name: str) -> None:
+        self.name = name
+        self.params: List[_RT] = []
+        self.result: Optional[_RT] = None
+        self.nslots = 0
+        self.body: Callable[[list], Any] = lambda env: None
+        self.ready = False
+        self.copy_params: List[int] = []
+
+    def invoke(self, args: List[Any]) -> Any:
+        env = [None] * self.nslots
+        env[:len(args)] = args
+        for i in self.copy_params:
+            env[i] = _clone(env[i])
+        r = self.body(env)
+        if r is None:
+            if self.result is not None:
+                raise EvalError(f"{self.name}: missing return")
+            return None
+        if r is _BREAK or r is _CONTINUE:
+            raise EvalError(f"{self.name}: break/continue outside loop")
+        return r[0]
+
+
+class _Pkg:
+    """One package (file) known to the evaluator."""
+
+    def __init__(self, alias: str, gofile: GoFile) -> None:
+        self.alias = alias
+        self.gofile = gofile
+        self.funcs: Dict[str, GoFunc] = {}
+        self.methods: Dict[Tuple[str, str], GoFunc] = {}
+        for f in gofile.funcs:
+            if f.recv_type is None:
+                self.funcs.setdefault(f.name, f)
+            else:
+                self.methods.setdefault((f.recv_type, f.name), f)
+        self.consts: Dict[str, GoConst] = {}
+        for c in gofile.consts:
+            self.consts.setdefault(c.name, c)
+        self.vars = {v.name for v in gofile.vars}
+        self.import_aliases: Dict[str, str] = {}
+        for a, p in gofile.imports:
+            self.import_aliases[a or p.rsplit("/", 1)[-1]] = p
+
+
+class GoEval:
+    """Evaluator for functions of parsed Go files with Go's typed integer
+    semantics (see the module documentation for the exact rules).
+
+    ``GoEval(main_file, imports={'alias': gofile, ...})``: *imports* maps the
+    import alias (or package name) used in the Go text to the parsed file of
+    that package.  Aliases form one flat namespace: a qualified name inside an
+    imported file is looked up under the same alias table.
+    """
+
+    def __init__(self, main_file: GoFile, imports: Optional[Dict[str, GoFile]] = None) -> None:
+        self._pkgs: Dict[str, _Pkg] = {"": _Pkg("", main_file)}
+        for alias, gf in (imports or {}).items():
+            self._pkgs[alias] = _Pkg(alias, gf)
+        self._types: Dict[str, _RT] = {}
+        self._compiled: Dict[Tuple[str, str], _CompiledFunc] = {}
+        for name, (bits, signed) in _INT_TYPES.items():
+            if name in ("byte", "rune"):
+                continue
+            t = _RT(name, "int").set_int(bits, signed)
+            t.named = True
+            self._types[name] = t
+        self._types["byte"] = self._types["uint8"]
+        self._types["rune"] = self._types["int32"]
+        for name in ("bool", "string"):
+            t = _RT(name, name)
+            t.named = True
+            self._types[name] = t
+        self.T_INT = self._types["int"]
+        self.T_BOOL = self._types["bool"]
+        self.T_STRING = self._types["string"]
+
+    # -- types --------------------------------------------------------------
+    def _intern(self, key: str, make: Callable[[], _RT]) -> _RT:
+        t = self._types.get(key)
+        if t is None:
+            t = make()
+            self._types[key] = t
+        return t
+
+    def _named_type(self, pkg: str, name: str) -> Optional[_RT]:
+        """Declared named type of a package (None if not declared there)."""
+        p = self._pkgs.get(pkg)
+        if p is None:
+            raise EvalError(f"unknown package {pkg!r} (not given in imports)")
+        gt = p.gofile.types.get(name)
+        if gt is None:
+            return None
+        key = f"{pkg}.{name}" if pkg else name
+        key = "#" + key if key in _INT_TYPES or key in ("bool", "string") else key
+        t = self._types.get(key)
+        if t is not None:
+            if t.kind == "pending":
+                raise EvalError(f"invalid recursive type {key}")
+            return t
+        if gt.is_alias:
+            t = self.resolve_type(gt.expr, pkg)
+            self._types[key] = t
+            return t
+        t = _RT(key, "pending")
+        self._types[key] = t
+        try:
+            u = self.resolve_type(gt.expr, pkg)
+        except Exception:
+            del self._types[key]
+            raise
+        t.copy_from(u)
+        t.named = True
+        return t
+
+    def resolve_type(self, texpr: Any, pkg: str = "") -> _RT:
+        """Type expression (tuple or text such as 'Drone', 'shared.Color') -> type."""
+        if isinstance(texpr, str):
+            try:
+                texpr = _Parser("package p; type x " + texpr).parse_file().type_list[0].expr
+            except GoParseError as ex:
+                raise EvalError(f"bad type expression {texpr!r}: {ex.message}")
+        k = texpr[0]
+        if k == "name":
+            name = texpr[1]
+            t = self._named_type(pkg, name)
+            if t is not None:
+                return t
+            t = self._types.get(name) if name in _INT_TYPES or name in ("bool", "string") else None
+            if t is None:
+                raise EvalError(f"undefined type {name}" + (f" in package {pkg}" if pkg else ""))
+            return t
+        if k == "qual":
+            p = self._pkgs.get(pkg)
+            if texpr[1] not in self._pkgs:
+                raise EvalError(f"type {texpr[1]}.{texpr[2]}: package {texpr[1]!r} not given in imports")
+            if p is not None and texpr[1] not in p.import_aliases and pkg == "":
+                raise EvalError(f"type {texpr[1]}.{texpr[2]}: {texpr[1]!r} is not imported")
+            t = self._named_type(texpr[1], texpr[2])
+            if t is None:
+                raise EvalError(f"undefined type {texpr[1]}.{texpr[2]}")
+            return t
+        if k == "array":
+            env = {n: c.value for n, c in self._pkgs[pkg].consts.items()}
+            n = _fold_const(texpr[1], env)
+            if isinstance(n, bool) or not isinstance(n, int) or n < 0:
+                raise EvalError(f"invalid array length {expr_str(texpr[1])}")
+            elem = self.resolve_type(texpr[2], pkg)
+            key = f"[{n}]{elem.key}"
+
+            def mk_a() -> _RT:
+                t = _RT(key, "array")
+                t.elem, t.length = elem, n
+                return t
+            return self._intern(key, mk_a)
+        if k in ("slice", "ptr"):
+            elem = self.resolve_type(texpr[1], pkg)
+            key = ("[]" if k == "slice" else "*") + elem.key
+
+            def mk_s() -> _RT:
+                t = _RT(key, k)
+                t.elem = elem
+                return t
+            return self._intern(key, mk_s)
+        if k == "struct":
+            fields: Dict[str, _RT] = {}
+            for f in texpr[1]:
+                if f.name in fields:
+                    raise EvalError(f"duplicate field {f.name}")
+                fields[f.name] = self.resolve_type(f.type, pkg)
+            key = "struct{" + "; ".join(f"{n} {t.key}" for n, t in fields.items()) + "}"
+
+            def mk_st() -> _RT:
+                t = _RT(key, "struct")
+                t.fields = fields
+                return t
+            return self._intern(key, mk_st)
+        key = type_str(texpr)
+        return self._intern("opaque " + key, lambda: _RT("opaque " + key, "opaque"))
+
+    def _zero(self, t: _RT) -> Any:
+        k = t.kind
+        if k == "int":
+            return 0
+        if k == "bool":
+            return False
+        if k == "string":
+            return ""
+        if k == "array":
+            return [self._zero(t.elem) for _ in range(t.length)]
+        if k == "struct":
+            return {n: self._zero(ft) for n, ft in t.fields.items()}
+        return None
+
+    def zero_value(self, type_name: Any) -> Any:
+        """Zero value of a type: structs as ``{GoFieldName: value}``, arrays as
+        lists, integers as int, bools as bool."""
+        return self._zero(self.resolve_type(type_name))
+
+    def check_value(self, type_name: Any, value: Any) -> None:
+        """Raise EvalError unless *value* is a well-formed value of the type."""
+        self._check(self.resolve_type(type_name) if not isinstance(type_name, _RT) else type_name,
+                    value, "value")
+
+    def _check(self, t: _RT, v: Any, path: str) -> None:
+        k = t.kind
+        if k == "int":
+            if isinstance(v, bool) or not isinstance(v, int):
+                raise EvalError(f"{path}: expected integer for {t.key}, got {v!r}")
+            if not t.lo <= v <= t.hi:
+                raise EvalError(f"{path}: {v} out of range of {t.key}")
+        elif k == "bool":
+            if not isinstance(v, bool):
+                raise EvalError(f"{path}: expected bool for {t.key}, got {v!r}")
+        elif k == "string":
+            if not isinstance(v, str):
+                raise EvalError(f"{path}: expected str for {t.key}, got {v!r}")
+        elif k == "array":
+            if not isinstance(v, list) or len(v) != t.length:
+                raise EvalError(f"{path}: expected list of length {t.length} for {t.key}")
+            for i, x in enumerate(v):
+                self._check(t.elem, x, f"{path}[{i}]")
+        elif k == "slice":
+            if v is None:
+                return
+            if not isinstance(v, list):
+                raise EvalError(f"{path}: expected list for {t.key}")
+            for i, x in enumerate(v):
+                self._check(t.elem, x, f"{path}[{i}]")
+        elif k == "struct":
+            if not isinstance(v, dict) or set(v) != set(t.fields):
+                raise EvalError(f"{path}: expected dict with keys {sorted(t.fields)} for {t.key}")
+            for n, ft in t.fields.items():
+                self._check(ft, v[n], f"{path}.{n}")
+        elif k == "ptr":
+            if v is not None:
+                self._check(t.elem, v, path)
+
+    # -- function access ----------------------------------------------------
+    def _get_compiled(self, pkg: str, recv: Optional[str], name: str) -> _CompiledFunc:
+        key = (pkg, f"{recv}.{name}" if recv else name)
+        cf = self._compiled.get(key)
+        if cf is not None:
+            return cf
+        p = self._pkgs[pkg]
+        fn = p.methods.get((recv, name)) if recv else p.funcs.get(name)
+        if fn is None:
+            raise EvalError(f"no function {key[1]}" + (f" in package {pkg}" if pkg else ""))
+        cf = _CompiledFunc((pkg + "." if pkg else "") + key[1])
+        self._compiled[key] = cf
+        try:
+            _FuncCompiler(self, pkg, fn, cf).compile()
+        except Exception:
+            del self._compiled[key]
+            raise
+        return cf
+
+    def has_func(self, name: str, recv_type: Optional[str] = None) -> bool:
+        p = self._pkgs[""]
+        return ((recv_type, name) in p.methods) if recv_type else (name in p.funcs)
+
+    def call(self, name: str, *args: Any) -> Any:
+        """Call a receiver-less function of the main file with Python values.
+        Integer arguments are wrapped to the parameter type (like an explicit
+        Go conversion); other arguments are validated."""
+        cf = self._get_compiled("", None, name)
+        if len(args) != len(cf.params):
+            raise EvalError(f"{name}: expected {len(cf.params)} arguments, got {len(args)}")
+        vals = []
+        for i, (a, t) in enumerate(zip(args, cf.params)):
+            if t.kind == "int" and isinstance(a, int) and not isinstance(a, bool):
+                a = _wrap_fn(t)(a)
+            self._check(t, a, f"{name} argument {i}")
+            vals.append(a)
+        return cf.invoke(vals)
+
+    def call_method(self, type_name: str, method: str, recv: Any, *args: Any) -> Any:
+        """Call a method of the main file; a pointer receiver gets *recv* itself
+        (mutations are visible to the caller)."""
+        cf = self._get_compiled("", type_name, method)
+        if len(args) + 1 != len(cf.params):
+            raise EvalError(f"{type_name}.{method}: expected {len(cf.params) - 1} arguments, "
+                            f"got {len(args)}")
+        self._check(cf.params[0], recv, "receiver")
+        for i, (a, t) in enumerate(zip(args, cf.params[1:])):
+            self._check(t, a, f"{type_name}.{method} argument {i}")
+        return cf.invoke([recv, *args])
+
+    def run_encode(self, type_name: str, value: Any) -> bytes:
+        """Execute ``func (m *T) Encode() []byte`` on *value* (not modified)."""
+        t = self.resolve_type(("name", type_name))
+        self._check(t, value, type_name)
+        cf = self._get_compiled("", type_name, "Encode")
+        if cf.result is None or cf.result.kind != "slice" or cf.result.elem is not self._types["uint8"]:
+            raise EvalError(f"{type_name}.Encode does not return []byte")
+        if len(cf.params) != 1:
+            raise EvalError(f"{type_name}.Encode takes unexpected parameters")
+        r = cf.invoke([_clone(value)])
+        if r is None:
+            raise EvalError(f"{type_name}.Encode returned nil")
+        return bytes(r)
+
+    def run_decode(self, type_name: str, data: bytes, value: Any = None) -> Any:
+        """Execute ``func (m *T) Decode(s []byte)`` on a zero value (or on a copy
+        of *value*) and return the resulting value."""
+        t = self.resolve_type(("name", type_name))
+        if value is None:
+            value = self._zero(t)
+        else:
+            self._check(t, value, type_name)
+            value = _clone(value)
+        cf = self._get_compiled("", type_name, "Decode")
+        if len(cf.params) != 2 or cf.params[1].kind != "slice" \
+                or cf.params[1].elem is not self._types["uint8"]:
+            raise EvalError(f"{type_name}.Decode does not take a single []byte parameter")
+        if cf.params[0].kind != "ptr":
+            raise EvalError(f"{type_name}.Decode has a value receiver; decoding would be lost")
+        cf.invoke([value, list(bytes(data))])
+        return value
+
+
+class _FuncCompiler:
+    """Compiles one parsed function into closures with static Go typing."""
+
+    def __init__(self, ev: GoEval, pkg: str, fn: GoFunc, out: _CompiledFunc) -> None:
+        self.ev = ev
+        self.pkg = pkg
+        self.p = ev._pkgs[pkg]
+        self.fn = fn
+        self.out = out
+        self.scopes: List[Dict[str, Tuple[int, _RT]]] = [{}]
+        self.nslots = 0
+        self.loop_depth = 0
+
+    # -- helpers ------------------------------------------------------------
+    def err(self, node: Any, msg: str) -> EvalError:
+        line = node[-1] if isinstance(node, tuple) and isinstance(node[-1], int) else self.fn.line
+        return EvalError(f"{self.out.name}: line {line}: {msg}")
+
+    def declare(self, name: str, t: _RT) -> int:
+        slot = self.nslots
+        self.nslots += 1
+        if name != "_":
+            self.scopes[-1][name] = (slot, t)
+        return slot
+
+    def lookup_local(self, name: str) -> Optional[Tuple[int, _RT]]:
+        for sc in reversed(self.scopes):
+            if name in sc:
+                return sc[name]
+        return None
+
+    def compile(self) -> None:
+        fn, ev, out = self.fn, self.ev, self.out
+        if fn.recv_type is not None:
+            rt = ev.resolve_type(("name", fn.recv_type), self.pkg)
+            if fn.recv_ptr:
+                rt = ev.resolve_type(("ptr", ("name", fn.recv_type)), self.pkg)
+            out.params.append(rt)
+            slot = self.declare(fn.recv_name or "_", rt)
+            if rt.kind in ("array", "struct"):
+                out.copy_params.append(slot)
+        for (name, _), texpr in zip(fn.params, fn.param_types):
+            t = ev.resolve_type(texpr, self.pkg)
+            out.params.append(t)
+            slot = self.declare(name or "_", t)
+            if t.kind in ("array", "struct"):
+                out.copy_params.append(slot)
+        if fn.result_type is not None:
+            if fn.result_type[0] == "func":
+                raise self.err(None, "multiple results are not supported")
+            out.result = ev.resolve_type(fn.result_type, self.pkg)
+        out.ready = True  # signature known: recursive calls may refer to it
+        body = self.block(fn.body, new_scope=True)
+        out.nslots = self.nslots
+        out.body = body
+
+    # -- constants / conversions of compiled expressions ---------------------
+    @staticmethod
+    def const_fn(v: Any) -> Callable[[list], Any]:
+        return lambda env: v
+
+    def to_type(self, c: _CE, t: _RT, node: Any, what: str) -> Callable[[list], Any]:
+        """Closure producing the value of c as type t under Go's assignability."""
+        ct, cv, cf = c
+        if ct is U_INT:
+            if t.kind != "int":
+                raise self.err(node, f"cannot use untyped int constant {cv} as {t.key} in {what}")
+            if not t.lo <= cv <= t.hi:
+                raise self.err(node, f"constant {cv} overflows {t.key} in {what}")
+            return self.const_fn(cv)
+        if ct is U_BOOL:
+            if t.kind != "bool":
+                raise self.err(node, f"cannot use untyped bool as {t.key} in {what}")
+            return cf if cf is not None else self.const_fn(cv)
+        if ct is U_STR:
+            if t.kind != "string":
+                raise self.err(node, f"cannot use untyped string constant as {t.key} in {what}")
+            return self.const_fn(cv)
+        if ct is U_NIL:
+            if t.kind not in ("ptr", "slice", "opaque"):
+                raise self.err(node, f"cannot use nil as {t.key} in {what}")
+            return self.const_fn(None)
+        if ct is t or (ct.ukey == t.ukey and not (ct.named and t.named) and ct.kind != "opaque"):
+            if t.kind in ("array", "struct"):
+                return lambda env: _clone(cf(env))
+            return cf
+        raise self.err(node, f"cannot use value of type {ct.key} as {t.key} in {what}")
+
+    def default_typed(self, c: _CE, node: Any) -> Tuple[_RT, Callable[[list], Any]]:
+        """Typed form of c; untyped constants get their default type."""
+        ct = c[0]
+        if ct is U_INT:
+            return self.ev.T_INT, self.to_type(c, self.ev.T_INT, node, "expression")
+        if ct is U_BOOL:
+            return self.ev.T_BOOL, self.to_type(c, self.ev.T_BOOL, node, "expression")
+        if ct is U_STR:
+            return self.ev.T_STRING, self.to_type(c, self.ev.T_STRING, node, "expression")
+        if ct is U_NIL:
+            raise self.err(node, "use of untyped nil")
+        return ct, c[2]
+
+    # -- expressions --------------------------------------------------------
+    def expr(self, e: tuple) -> _CE:
+        k = e[0]
+        m = getattr(self, "x_" + k, None)
+        if m is None:
+            raise self.err(e, f"expression not supported by the evaluator: {expr_str(e)}")
+        return m(e)
+
+    def x_paren(self, e: tuple) -> _CE:
+        return self.expr(e[1])
+
+    def x_int(self, e: tuple) -> _CE:
+        return (U_INT, e[1], None)
+
+    def x_str(self, e: tuple) -> _CE:
+        return (U_STR, e[1], None)
+
+    def x_ident(self, e: tuple) -> _CE:
+        name = e[1]
+        loc = self.lookup_local(name)
+        if loc is not None:
+            slot, t = loc
+            return (t, None, lambda env: env[slot])
+        c = self.p.consts.get(name)
+        if c is not None:
+            return self.const_value(c, e)
+        if name in self.p.funcs or name in self.p.gofile.types or name in self.p.vars:
+            raise self.err(e, f"{name} is not usable as a value in the evaluator")
+        if name == "true":
+            return (U_BOOL, True, None)
+        if name == "false":
+            return (U_BOOL, False, None)
+        if name == "nil":
+            return (U_NIL, None, None)
+        raise self.err(e, f"undefined: {name}")
+
+    def const_value(self, c: GoConst, node: Any) -> _CE:
+        v = c.value
+        if v is None:
+            raise self.err(node, f"constant {c.name} has no foldable value")
+        u = U_BOOL if isinstance(v, bool) else U_INT if isinstance(v, int) else U_STR
+        if c.type is None:
+            return (u, v, None)
+        t = self.ev.resolve_type(c.type, self.pkg)
+        return (t, None, self.to_type((u, v, None), t, node, f"constant {c.name}"))
+
+    def as_type(self, e: tuple) -> Optional[_RT]:
+        """The type denoted by expression e, or None if e is not a type."""
+        e = _unparen(e)
+        k = e[0]
+        if k == "type":
+            return self.ev.resolve_type(e[1], self.pkg)
+        if k == "ident":
+            name = e[1]
+            if self.lookup_local(name) is not None:
+                return None
+            if name in self.p.gofile.types:
+                return self.ev.resolve_type(("name", name), self.pkg)
+            if name in self.p.funcs or name in self.p.consts or name in self.p.vars:
+                return None
+            if name in _INT_TYPES or name in ("bool", "string"):
+                return self.ev.resolve_type(("name", name), self.pkg)
+            return None
+        if k == "sel" and e[1][0] == "ident" and self.lookup_local(e[1][1]) is None \
+                and e[1][1] in self.p.import_aliases:
+            alias = e[1][1]
+            if alias not in self.ev._pkgs:
+                raise self.err(e, f"package {alias!r} not given in imports")
+            if e[2] in self.ev._pkgs[alias].gofile.types:
+                return self.ev.resolve_type(("qual", alias, e[2]), self.pkg)
+        return None
+
+    def x_type(self, e: tuple) -> _CE:
+        raise self.err(e, f"type {type_str(e[1])} is not an expression")
+
+    def x_sel(self, e: tuple) -> _CE:
+        base = e[1]
+        if base[0] == "ident" and self.lookup_local(base[1]) is None \
+                and base[1] in self.p.import_aliases:
+            alias = base[1]
+            pk = self.ev._pkgs.get(alias)
+            if pk is None:
+                raise self.err(e, f"package {alias!r} not given in imports")
+            c = pk.consts.get(e[2])
+            if c is None:
+                raise self.err(e, f"{alias}.{e[2]} is not a constant (only constants, types and "
+                                  "functions of imported packages are supported)")
+            sub = _FuncCompiler(self.ev, alias, self.fn, self.out)
+            return sub.const_value(c, e)
+        bt, _, bf = self.expr(base)
+        if isinstance(bt, _Untyped):
+            raise self.err(e, f"selector on untyped constant")
+        st = bt.elem if bt.kind == "ptr" else bt
+        if st is None or st.kind != "struct":
+            raise self.err(e, f"{expr_str(base)} (type {bt.key}) has no field {e[2]}")
+        name = e[2]
+        ft = st.fields.get(name)
+        if ft is None:
+            raise self.err(e, f"{expr_str(base)} (type {bt.key}) has no field or method {name}")
+        if bt.kind == "ptr":
+            def get_p(env: list) -> Any:
+                b = bf(env)
+                if b is None:
+                    raise EvalError("nil pointer dereference")
+                return b[name]
+            return (ft, None, get_p)
+        return (ft, None, lambda env: bf(env)[name])
+
+    def index_parts(self, e: tuple) -> Tuple[_RT, Callable, Optional[int], Optional[Callable]]:
+        """(element type, container closure, constant index | None, index closure | None)."""
+        bt, _, bf = self.expr(e[1])
+        if isinstance(bt, _Untyped) or bt.kind not in ("array", "slice"):
+            raise self.err(e, f"cannot index {expr_str(e[1])} (type {bt.key})")
+        it, iv, ifn = self.expr(e[2])
+        if it is U_INT:
+            if iv < 0:
+                raise self.err(e, f"invalid index {iv} (must be non-negative)")
+            if bt.kind == "array" and iv >= bt.length:
+                raise self.err(e, f"invalid index {iv} (out of bounds for {bt.length}-element array)")
+            return bt.elem, bf, iv, None
+        if isinstance(it, _Untyped) or it.kind != "int":
+            raise self.err(e, f"index {expr_str(e[2])} must be an integer")
+        return bt.elem, bf, None, ifn
+
+    def x_index(self, e: tuple) -> _CE:
+        et, bf, ci, ifn = self.index_parts(e)
+        src = expr_str(e)
+        if ci is not None:
+            def get_c(env: list) -> Any:
+                a = bf(env)
+                try:
+                    return a[ci]
+                except (IndexError, TypeError):
+                    raise EvalError(f"{src}: index out of range [{ci}] with length "
+                                    f"{len(a) if a is not None else 0}")
+            return (et, None, get_c)
+
+        def get_v(env: list) -> Any:
+            a = bf(env)
+            i = ifn(env)
+            n = len(a) if a is not None else 0
+            if not 0 <= i < n:
+                raise EvalError(f"{src}: index out of range [{i}] with length {n}")
+            return a[i]
+        return (et, None, get_v)
+
+    def x_unary(self, e: tuple) -> _CE:
+        op = e[1]
+        if op in ("&", "*"):
+            raise self.err(e, f"unary {op} is not supported by the evaluator")
+        t, v, f = self.expr(e[2])
+        if op == "!":
+            if t.kind != "bool":
+                raise self.err(e, f"operator ! not defined on {t.key}")
+            if f is None:
+                return (t, not v, None)
+            return (t, None, lambda env: not f(env))
+        if t.kind != "int":
+            raise self.err(e, f"operator {op} not defined on {t.key}")
+        if f is None:
+            return (U_INT, {"-": -v, "+": v, "^": ~v}[op], None)
+        if op == "+":
+            return (t, None, f)
+        w = _wrap_fn(t)
+        if op == "-":
+            return (t, None, lambda env: w(-f(env)))
+        if t.signed:
+            return (t, None, lambda env: ~f(env))
+        mask = t.mask
+        return (t, None, lambda env: f(env) ^ mask)
+
+    def x_binary(self, e: tuple) -> _CE:
+        return self.binary_ce(e, e[1], self.expr(e[2]), self.expr(e[3]))
+
+    def binary_ce(self, e: tuple, op: str, L: _CE, R: _CE) -> _CE:
+        """Binary operation on two compiled operands (e is used for messages)."""
+        line = e[-1]
+        if L[0] is _VOID or R[0] is _VOID:
+            raise self.err(e, f"value of a call without result used in {expr_str(e)}")
+        if op in ("<<", ">>"):
+            return self.shift(e, op, L, R)
+        lt, lv, lf = L
+        rt, rv, rf = R
+        if lt is U_NIL or rt is U_NIL:
+            raise self.err(e, "operations on nil are not supported")
+        # both untyped constants: fold
+        if lf is None and rf is None:
+            try:
+                v = _untyped_binop(op, lv, rv)
+            except EvalError as ex:
+                raise self.err(e, str(ex))
+            return (U_BOOL if isinstance(v, bool) else U_INT if isinstance(v, int) else U_STR,
+                    v, None)
+        if op in ("&&", "||"):
+            if lt.kind != "bool" or rt.kind != "bool":
+                raise self.err(e, f"operator {op} needs boolean operands, got {lt.key} and {rt.key}")
+            typed = [t for t in (lt, rt) if not isinstance(t, _Untyped)]
+            if len(typed) == 2 and typed[0] is not typed[1]:
+                raise self.err(e, f"mismatched types {lt.key} and {rt.key} in {expr_str(e)}")
+            res_t = typed[0] if typed else U_BOOL
+            a = lf if lf is not None else self.const_fn(lv)
+            b = rf if rf is not None else self.const_fn(rv)
+            if op == "&&":
+                return (res_t, None, lambda env: a(env) and b(env))
+            return (res_t, None, lambda env: a(env) or b(env))
+        # operand type unification
+        lu, ru = isinstance(lt, _Untyped), isinstance(rt, _Untyped)
+        if lu and ru:
+            # untyped non-constant bool with untyped bool
+            if lt is U_BOOL and rt is U_BOOL and op in ("==", "!="):
+                a = lf if lf is not None else self.const_fn(lv)
+                b = rf if rf is not None else self.const_fn(rv)
+                if op == "==":
+                    return (U_BOOL, None, lambda env: a(env) == b(env))
+                return (U_BOOL, None, lambda env: a(env) != b(env))
+            raise self.err(e, f"invalid operation {expr_str(e)}")
+        if lu:
+            t = rt
+            rconst = None
+            a = self.to_type(L, t, e, expr_str(e))
+            b = rf
+        elif ru:
+            t = lt
+            a = lf
+            b = self.to_type(R, t, e, expr_str(e))
+            rconst = rv if rf is None else None
+        else:
+            if lt is not rt:
+                raise self.err(e, f"invalid operation: {expr_str(e)} (mismatched types "
+                                  f"{lt.key} and {rt.key})")
+            t, a, b, rconst = lt, lf, rf, None
+        if op in ("==", "!=", "<", "<=", ">", ">="):
+            if t.kind not in ("int", "bool", "string"):
+                raise self.err(e, f"comparison of {t.key} values is not supported")
+            if t.kind == "bool" and op not in ("==", "!="):
+                raise self.err(e, f"operator {op} not defined on {t.key}")
+            if rconst is not None:
+                c = rconst
+                f = {"==": lambda env: a(env) == c, "!=": lambda env: a(env) != c,
+                     "<": lambda env: a(env) < c, "<=": lambda env: a(env) <= c,
+                     ">": lambda env: a(env) > c, ">=": lambda env: a(env) >= c}[op]
+            else:
+                f = {"==": lambda env: a(env) == b(env), "!=": lambda env: a(env) != b(env),
+                     "<": lambda env: a(env) < b(env), "<=": lambda env: a(env) <= b(env),
+                     ">": lambda env: a(env) > b(env), ">=": lambda env: a(env) >= b(env)}[op]
+            return (U_BOOL, None, f)
+        try:
+            vf = _value_binop(op, t, line)
+        except EvalError as ex:
+            raise self.err(e, str(ex).split(": ", 1)[-1] + f" in {expr_str(e)}")
+        if rconst is not None and t.kind == "int":
+            c = rconst
+            if op == "&":
+                return (t, None, lambda env: a(env) & c)
+            if op == "|":
+                return (t, None, lambda env: a(env) | c)
+            if op in ("/", "%") and c == 0:
+                raise self.err(e, "division by zero")
+            return (t, None, lambda env: vf(a(env), c))
+        return (t, None, lambda env: vf(a(env), b(env)))
+
+    def shift(self, e: tuple, op: str, L: _CE, R: _CE) -> _CE:
+        lt, lv, lf = L
+        rt, rv, rf = R
+        if rt.kind != "int":
+            raise self.err(e, f"shift count {expr_str(e[3])} (type {rt.key}) must be an integer")
+        if lt.kind != "int":
+            raise self.err(e, f"shifted operand {expr_str(e[2])} (type {lt.key}) must be an integer")
+        if rf is None:  # constant count
+            if rv < 0:
+                raise self.err(e, f"invalid shift count {rv} (negative)")
+            if lf is None:
+                try:
+                    return (U_INT, _untyped_binop(op, lv, rv), None)
+                except EvalError as ex:
+                    raise self.err(e, str(ex))
+            n = rv
+            if op == ">>":
+                return (lt, None, lambda env: lf(env) >> n)
+            if n >= lt.bits:
+                return (lt, None, lambda env: (lf(env), 0)[1])
+            mask, half = lt.mask, lt.half
+            if lt.signed:
+                return (lt, None, lambda env: (((lf(env) << n) + half) & mask) - half)
+            return (lt, None, lambda env: (lf(env) << n) & mask)
+        # non-constant count
+        if lf is None:
+            # Go: the constant takes the type it would have without the shift;
+            # simplification: int (see module documentation).
+            lt = self.ev.T_INT
+            lf = self.to_type(L, lt, e, expr_str(e))
+        vf = _value_binop(op, lt, e[-1])
+        src = expr_str(e)
+        if rt.signed:
+            def sh(env: list) -> Any:
+                n = rf(env)
+                if n < 0:
+                    raise EvalError(f"{src}: negative shift amount {n} (run-time panic)")
+                return vf(lf(env), n)
+            return (lt, None, sh)
+        return (lt, None, lambda env: vf(lf(env), rf(env)))
+
+    def x_call(self, e: tuple) -> _CE:
+        fexpr, args = e[1], e[2]
+        # conversion?
+        t = self.as_type(fexpr)
+        if t is not None:
+            if len(args) != 1:
+                raise self.err(e, f"conversion to {t.key} needs exactly one argument")
+            return self.conversion(e, t, self.expr(args[0]))
+        f0 = _unparen(fexpr)
+        if f0[0] == "ident" and self.lookup_local(f0[1]) is None:
+            name = f0[1]
+            if name in self.p.funcs:
+                return self.call_func(e, self.pkg, name, args)
+            if name == "make":
+                return self.builtin_make(e, args)
+            if name == "len":
+                return self.builtin_len(e, args)
+            raise self.err(e, f"undefined function {name}")
+        if f0[0] == "sel" and f0[1][0] == "ident" and self.lookup_local(f0[1][1]) is None \
+                and f0[1][1] in self.p.import_aliases:
+            alias = f0[1][1]
+            pk = self.ev._pkgs.get(alias)
+            if pk is None:
+                raise self.err(e, f"package {alias!r} not given in imports")
+            if f0[2] not in pk.funcs:
+                raise self.err(e, f"undefined: {alias}.{f0[2]}")
+            return self.call_func(e, alias, f0[2], args)
+        raise self.err(e, f"call not supported by the evaluator: {expr_str(e)}")
+
+    def call_func(self, e: tuple, pkg: str, name: str, args: List[tuple]) -> _CE:
+        cf = self.ev._get_compiled(pkg, None, name)
+        if not cf.ready:
+            raise self.err(e, f"cannot resolve signature of {name}")
+        if len(args) != len(cf.params):
+            raise self.err(e, f"wrong number of arguments in call to {name}: "
+                              f"have {len(args)}, want {len(cf.params)}")
+        afs = [self.to_type(self.expr(a), pt, a, f"argument to {name}")
+               for a, pt in zip(args, cf.params)]
+        invoke = cf.invoke
+        if len(afs) == 1:
+            a0 = afs[0]
+            fn = lambda env: invoke([a0(env)])  # noqa: E731
+        elif len(afs) == 2:
+            a0, a1 = afs
+            fn = lambda env: invoke([a0(env), a1(env)])  # noqa: E731
+        else:
+            fn = lambda env: invoke([a(env) for a in afs])  # noqa: E731
+        if cf.result is None:
+            return (_VOID, None, fn)
+        return (cf.result, None, fn)
+
+    def builtin_make(self, e: tuple, args: List[tuple]) -> _CE:
+        if not 2 <= len(args) <= 3:
+            raise self.err(e, "make needs a type and a length")
+        t = self.as_type(args[0])
+        if t is None or t.kind != "slice":
+            raise self.err(e, f"make: only slice types are supported, got {expr_str(args[0])}")
+        n = self.expr(args[1])
+        if n[0].kind != "int":
+            raise self.err(e, "make: length must be an integer")
+        if n[2] is None and n[1] < 0:
+            raise self.err(e, f"make: negative length {n[1]}")
+        nf = n[2] if n[2] is not None else self.const_fn(n[1])
+        zero = self.ev._zero
+        elem = t.elem
+        simple = elem.kind in ("int", "bool", "string")
+        z = zero(elem)
+
+        def mk(env: list) -> Any:
+            k = nf(env)
+            if k < 0:
+                raise EvalError("make: len out of range (run-time panic)")
+            return [z] * k if simple else [zero(elem) for _ in range(k)]
+        return (t, None, mk)
+
+    def builtin_len(self, e: tuple, args: List[tuple]) -> _CE:
+        if len(args) != 1:
+            raise self.err(e, "len needs one argument")
+        t, v, f = self.expr(args[0])
+        if t is U_STR:
+            return (U_INT, len(v.encode("utf-8", "surrogateescape")), None)
+        if isinstance(t, _Untyped) or t.kind not in ("array", "slice", "string"):
+            raise self.err(e, f"invalid argument for len: {expr_str(args[0])}")
+        if t.kind == "array":
+            return (U_INT, t.length, None)
+        if t.kind == "string":
+            return (self.ev.T_INT, None,
+                    lambda env: len(f(env).encode("utf-8", "surrogateescape")))
+        return (self.ev.T_INT, None, lambda env: len(f(env) or ()))
+
+    def conversion(self, e: tuple, t: _RT, c: _CE) -> _CE:
+        ct, cv, cf = c
+        if isinstance(ct, _Untyped):
+            return (t, None, self.to_type(c, t, e, f"conversion {expr_str(e)}"))
+        if ct is t:
+            return (t, None, cf)
+        if t.kind == "int" and ct.kind == "int":
+            if t.bits > ct.bits and (t.signed or not ct.signed):
+                return (t, None, cf)  # value preserving
+            if t.bits == ct.bits and t.signed == ct.signed:
+                return (t, None, cf)
+            mask, half = t.mask, t.half
+            if t.signed:
+                return (t, None, lambda env: ((cf(env) + half) & mask) - half)
+            return (t, None, lambda env: cf(env) & mask)
+        if t.kind == ct.kind and t.ukey == ct.ukey and t.kind in ("bool", "string", "array",
+                                                                    "struct", "slice", "ptr"):
+            return (t, None, cf)
+        raise self.err(e, f"cannot convert {expr_str(e[2][0])} (type {ct.key}) to type {t.key}")
+
+    # -- statements ---------------------------------------------------------
+    def block(self, stmts: List[tuple], new_scope: bool = True) -> Callable[[list], Any]:
+        if new_scope:
+            self.scopes.append({})
+        try:
+            fs = [self.stmt(s) for s in stmts]
+        finally:
+            if new_scope:
+                self.scopes.pop()
+        if not fs:
+            return lambda env: None
+        if len(fs) == 1:
+            return fs[0]
+
+        def run(env: list) -> Any:
+            for f in fs:
+                r = f(env)
+                if r is not None:
+                    return r
+            return None
+        return run
+
+    def stmt(self, s: tuple) -> Callable[[list], Any]:
+        m = getattr(self, "s_" + s[0], None)
+        if m is None:
+            raise self.err(s, f"statement not supported by the evaluator: {stmt_str(s)}")
+        return m(s)
+
+    def s_block(self, s: tuple) -> Callable:
+        return self.block(s[1])
+
+    def s_expr(self, s: tuple) -> Callable:
+        e = _unparen(s[1])
+        if e[0] != "call":
+            raise self.err(s, f"{expr_str(e)} evaluated but not used")
+        f = self.expr(e)[2]
+
+        def run(env: list) -> None:
+            f(env)
+        return run
+
+    def s_return(self, s: tuple) -> Callable:
+        res = self.out.result
+        if not s[1]:
+            if res is not None:
+                raise self.err(s, "not enough return values")
+            ret = (None,)
+            return lambda env: ret
+        if res is None:
+            raise self.err(s, "too many return values")
+        if len(s[1]) != 1:
+            raise self.err(s, "multiple return values are not supported")
+        f = self.to_type(self.expr(s[1][0]), res, s, "return statement")
+        return lambda env: (f(env),)
+
+    def lvalue(self, e: tuple) -> Tuple[_RT, Callable[[list], Tuple[Any, Any]]]:
+        """(type, ref) where ref(env) -> (container, key) addressing the variable."""
+        e = _unparen(e)
+        k = e[0]
+        if k == "ident":
+            loc = self.lookup_local(e[1])
+            if loc is None:
+                raise self.err(e, f"cannot assign to {e[1]}")
+            slot, t = loc
+            return t, lambda env: (env, slot)
+        if k == "sel":
+            bt, _, bf = self.expr(e[1])
+            st = bt.elem if bt.kind == "ptr" else bt
+            if isinstance(bt, _Untyped) or st is None or st.kind != "struct":
+                raise self.err(e, f"{expr_str(e[1])} has no field {e[2]}")
+            name = e[2]
+            ft = st.fields.get(name)
+            if ft is None:
+                raise self.err(e, f"{expr_str(e[1])} (type {bt.key}) has no field {name}")
+
+            def ref_f(env: list) -> Tuple[Any, Any]:
+                b = bf(env)
+                if b is None:
+                    raise EvalError("nil pointer dereference")
+                return b, name
+            return ft, ref_f
+        if k == "index":
+            et, bf, ci, ifn = self.index_parts(e)
+            src = expr_str(e)
+            if ci is not None:
+                def ref_c(env: list) -> Tuple[Any, Any]:
+                    a = bf(env)
+                    if a is None or ci >= len(a):
+                        raise EvalError(f"{src}: index out of range [{ci}] with length "
+                                        f"{len(a) if a is not None else 0}")
+                    return a, ci
+                return et, ref_c
+
+            def ref_v(env: list) -> Tuple[Any, Any]:
+                a = bf(env)
+                i = ifn(env)
+                n = len(a) if a is not None else 0
+                if not 0 <= i < n:
+                    raise EvalError(f"{src}: index out of range [{i}] with length {n}")
+                return a, i
+            return et, ref_v
+        raise self.err(e, f"cannot assign to {expr_str(e)}")
+
+    def s_assign(self, s: tuple) -> Callable:
+        op, lhs, rhs = s[1], s[2], s[3]
+        if len(lhs) != 1 or len(rhs) != 1:
+            raise self.err(s, "multi-value assignment is not supported by the evaluator")
+        l, r = lhs[0], rhs[0]
+        if op == ":=":
+            c = self.expr(r)
+            if c[0] is _VOID:
+                raise self.err(s, f"{expr_str(r)} (no value) used as value")
+            t, f = self.default_typed(c, s)
+            if l[1] in self.scopes[-1]:
+                raise self.err(s, f"no new variables on left side of := ({l[1]})")
+            slot = self.declare(l[1], t)
+            if t.kind in ("array", "struct"):
+                def decl_copy(env: list) -> None:
+                    env[slot] = _clone(f(env))
+                return decl_copy
+
+            def decl(env: list) -> None:
+                env[slot] = f(env)
+            return decl
+        lt, ref = self.lvalue(l)
+        if op == "=":
+            c = self.expr(r)
+            if c[0] is _VOID:
+                raise self.err(s, f"{expr_str(r)} (no value) used as value")
+            f = self.to_type(c, lt, s, "assignment")
+
+            def assign(env: list) -> None:
+                c_, k_ = ref(env)
+                c_[k_] = f(env)
+            return assign
+        # x op= y  ==  x = x op y, typed like the binary operation
+        bop = op[:-1]
+        holder: List[Any] = [None]
+        cur: _CE = (lt, None, lambda env: holder[0])
+        res = self.binary_ce(("binary", bop, l, r, s[-1]), bop, cur, self.expr(r))
+        if res[0] is not lt:
+            raise self.err(s, f"cannot assign result of type {res[0].key} to {lt.key}")
+        rf = res[2]
+
+        def opassign(env: list) -> None:
+            c_, k_ = ref(env)
+            holder[0] = c_[k_]
+            c_[k_] = rf(env)
+        return opassign
+
+    def s_incdec(self, s: tuple) -> Callable:
+        one = ("int", 1, s[-1])
+        return self.s_assign(("assign", "+=" if s[2] == "++" else "-=", [s[1]], [one], s[-1]))
+
+    def s_var(self, s: tuple) -> Callable:
+        name, texpr, init = s[1], s[2], s[3]
+        if texpr is not None:
+            t = self.ev.resolve_type(texpr, self.pkg)
+            if init is not None:
+                f = self.to_type(self.expr(init), t, s, "variable declaration")
+            else:
+                zero, tt = self.ev._zero, t
+                f = lambda env: zero(tt)  # noqa: E731
+        else:
+            t, f = self.default_typed(self.expr(init), s)
+        slot = self.declare(name, t)
+
+        def decl(env: list) -> None:
+            env[slot] = f(env)
+        return decl
+
+    def cond(self, e: tuple, what: str) -> Callable[[list], Any]:
+        t, v, f = self.expr(e)
+        if t.kind != "bool":
+            raise self.err(e, f"non-boolean condition in {what}: {expr_str(e)} (type {t.key})")
+        return f if f is not None else self.const_fn(v)
+
+    def s_if(self, s: tuple) -> Callable:
+        self.scopes.append({})
+        try:
+            init = self.stmt(s[1]) if s[1] is not None else None
+            c = self.cond(s[2], "if statement")
+            then = self.block(s[3])
+            els = self.stmt(s[4]) if s[4] is not None else None
+        finally:
+            self.scopes.pop()
+
+        def run(env: list) -> Any:
+            if init is not None:
+                init(env)
+            if c(env):
+                return then(env)
+            if els is not None:
+                return els(env)
+            return None
+        return run
+
+    def s_switch(self, s: tuple) -> Callable:
+        self.scopes.append({})
+        try:
+            init = self.stmt(s[1]) if s[1] is not None else None
+            tag_slot = None
+            tag_f = None
+            if s[2] is not None:
+                tt, tf = self.default_typed(self.expr(s[2]), s[2])
+                tag_slot = self.declare("_", tt)
+                tag_f = tf
+                tag_ce: _CE = (tt, None, lambda env: env[tag_slot])
+            arms: List[Tuple[Optional[List[Callable]], Callable]] = []
+            seen: Dict[Any, int] = {}
+            for exprs, body, line, _span in s[3]:
+                conds: Optional[List[Callable]] = None
+                if exprs is not None:
+                    conds = []
+                    for ce in exprs:
+                        if tag_slot is not None:
+                            cv = _fold_const(ce, {n: c.value for n, c in self.p.consts.items()})
+                            if cv is not None and not isinstance(cv, str):
+                                if cv in seen:
+                                    raise self.err(ce, f"duplicate case {expr_str(ce)} in switch "
+                                                       f"(previous case at line {seen[cv]})")
+                                seen[cv] = line
+                            node = ("binary", "==", s[2], ce, line)
+                            r = self.binary_ce(node, "==", tag_ce, self.expr(ce))
+                            conds.append(r[2] if r[2] is not None else self.const_fn(r[1]))
+                        else:
+                            conds.append(self.cond(ce, "switch case"))
+                self.loop_depth += 1  # `break` is allowed inside switch
+                try:
+                    arms.append((conds, self.block(body)))
+                finally:
+                    self.loop_depth -= 1
+            if sum(1 for c, _ in arms if c is None) > 1:
+                raise self.err(s, "multiple defaults in switch")
+        finally:
+            self.scopes.pop()
+
+        def run(env: list) -> Any:
+            if init is not None:
+                init(env)
+            if tag_f is not None:
+                env[tag_slot] = tag_f(env)
+            chosen = None
+            for conds, body in arms:
+                if conds is not None and any(c(env) for c in conds):
+                    chosen = body
+                    break
+            if chosen is None:
+                for conds, body in arms:
+                    if conds is None:
+                        chosen = body
+                        break
+            if chosen is None:
+                return None
+            r = chosen(env)
+            return None if r is _BREAK else r
+        return run
+
+    def s_for(self, s: tuple) -> Callable:
+        self.scopes.append({})
+        try:
+            init = self.stmt(s[1]) if s[1] is not None else None
+            c = self.cond(s[2], "for statement") if s[2] is not None else None
+            post = self.stmt(s[3]) if s[3] is not None else None
+            self.loop_depth += 1
+            try:
+                body = self.block(s[4])
+            finally:
+                self.loop_depth -= 1
+        finally:
+            self.scopes.pop()
+        name = self.out.name
+
+        def run(env: list) -> Any:
+            if init is not None:
+                init(env)
+            n = 0
+            while c is None or c(env):
+                r = body(env)
+                if r is not None:
+                    if r is _BREAK:
+                        break
+                    if r is not _CONTINUE:
+                        return r
+                if post is not None:
+                    post(env)
+                n += 1
+                if n > 10_000_000:
+                    raise EvalError(f"{name}: loop iteration limit exceeded")
+            return None
+        return run
+
+    def s_break(self, s: tuple) -> Callable:
+        if self.loop_depth == 0:
+            raise self.err(s, "break is not in a loop or switch")
+        return lambda env: _BREAK
+
+    def s_continue(self, s: tuple) -> Callable:
+        if self.loop_depth == 0:
+            raise self.err(s, "continue is not in a loop")
+        return lambda env: _CONTINUE
+
+
+_VOID = _Untyped("no value", "void")
+
+
+# ---------------------------------------------------------------------------
+# D. Runtime helper evaluation (lib/go/bitproto.go)
+# ---------------------------------------------------------------------------
+
+RUNTIME_HELPER_NAMES = ("getNbitsToCopy", "getMask", "min", "smartShift", "Bool2byte",
+                        "Byte2bool")
+
+
+class RuntimeHelpers:
+    """Pure helper functions of the Go runtime library, evaluated from their
+    parsed bodies.  ``call('smartShift', 0x81, -1)`` etc.  Integer arguments
+    are wrapped to the parameter type (``byte`` parameters wrap modulo 256),
+    ``int`` is 64 bit."""
+
+    def __init__(self, gofile: GoFile) -> None:
+        self.gofile = gofile
+        self.eval = GoEval(gofile)
+        missing = [n for n in RUNTIME_HELPER_NAMES if gofile.func(n) is None]
+        if missing:
+            raise GoParseError("runtime library lacks helper functions: " + ", ".join(missing), 0)
+
+    def names(self) -> List[str]:
+        return list(RUNTIME_HELPER_NAMES)
+
+    def signature(self, name: str) -> Tuple[List[Tuple[str, str]], Optional[str]]:
+        f = self.gofile.func(name)
+        if f is None:
+            raise KeyError(name)
+        return list(f.params), f.result
+
+    def call(self, name: str, *args: Any) -> Any:
+        return self.eval.call(name, *args)
+
+
+def load_runtime_helpers(path: str = "/repo/lib/go/bitproto.go") -> RuntimeHelpers:
+    with open(path, "r", encoding="utf-8") as fh:
+        return RuntimeHelpers(parse_file(fh.read()))
+
+
+# ---------------------------------------------------------------------------
+# E. Static checks
+# ---------------------------------------------------------------------------
+
+_PREDECLARED = frozenset(
+    "bool byte complex64 complex128 error float32 float64 int int8 int16 int32 int64 rune "
+    "string uint uint8 uint16 uint32 uint64 uintptr any comparable true false iota nil append "
+    "cap clear close complex copy delete imag len make max min new panic print println real "
+    "recover".split()
+)
+_PREDECLARED_TYPES = frozenset(
+    "bool byte complex64 complex128 error float32 float64 int int8 int16 int32 int64 rune "
+    "string uint uint8 uint16 uint32 uint64 uintptr any comparable".split()
+)
+
+
+def _import_name(alias: Optional[str], path: str) -> str:
+    return alias if alias else path.rsplit("/", 1)[-1]
+
+
+class _Checker:
+    def __init__(self, gf: GoFile, imported: Optional[Dict[str, GoFile]]) -> None:
+        self.gf = gf
+        self.imported = imported or {}
+        self.problems: List[str] = []
+        self.pkg_names: Dict[str, str] = {}
+        self.used_pkgs: set = set()
+        self.top = set(gf.top_level_names)
+        self.method_set: Dict[str, set] = {}
+        for f in gf.funcs:
+            if f.recv_type:
+                self.method_set.setdefault(f.recv_type, set()).add(f.name)
+        # name -> [static type (pkg, type expr) | None, used, line, kind]
+        self.scopes: List[Dict[str, list]] = []
+        self.func_name = ""
+
+    def add(self, line: int, msg: str) -> None:
+        self.problems.append(f"line {line}: {msg}")
+
+    # -- top level ----------------------------------------------------------
+    def run(self) -> List[str]:
+        gf = self.gf
+        seen_other = False
+        for kind, _name, line in gf.decl_order:
+            if kind == "import":
+                if seen_other:
+                    self.add(line, "import declaration after other declarations "
+                                   "(Go: imports must appear before other declarations)")
+            else:
+                seen_other = True
+        for (alias, path), line in zip(gf.imports, gf.import_lines):
+            if alias == "_":
+                continue
+            name = _import_name(alias, path)
+            if name in self.pkg_names:
+                self.add(line, f"{name} redeclared in this block (imported twice)")
+            self.pkg_names[name] = path
+            if name in self.top:
+                self.add(line, f"{name} already declared through import of package \"{path}\"")
+        seen: Dict[str, int] = {}
+        for kind, name, line in gf.decl_order:
+            if kind in ("import", "method") or name == "_":
+                continue
+            if name in ("init", "main") and kind == "func":
+                continue
+            if name in seen:
+                self.add(line, f"{name} redeclared in this block (previous declaration at line "
+                               f"{seen[name]})")
+            else:
+                seen[name] = line
+        seen_m: Dict[str, int] = {}
+        for kind, name, line in gf.decl_order:
+            if kind != "method":
+                continue
+            if name in seen_m:
+                self.add(line, f"method {name} already declared at line {seen_m[name]}")
+            else:
+                seen_m[name] = line
+            recv = name.split(".", 1)[0]
+            if recv not in gf.types:
+                self.add(line, f"method {name}: receiver type {recv} is not declared in this file")
+        for gt in gf.type_list:
+            self.check_type_expr(gt.expr, gt.line)
+            if gt.kind == "struct":
+                for f in gt.fields:
+                    if f.name != "_" and f.name in self.method_set.get(gt.name, ()):
+                        self.add(f.line, f"field and method with the same name {f.name} "
+                                         f"in type {gt.name}")
+        for c in gf.consts:
+            if c.type is not None:
+                self.check_type_name_text(c.type, c.line)
+            if c.expr is not None:
+                self.scopes = [{}]
+                self.walk_expr(c.expr)
+        for v in gf.vars:
+            if v.type is not None:
+                self.check_type_name_text(v.type, v.line)
+            if v.expr is not None:
+                self.scopes = [{}]
+                self.walk_expr(v.expr)
+        for f in gf.funcs:
+            self.check_func(f)
+        for (alias, path), line in zip(gf.imports, gf.import_lines):
+            name = _import_name(alias, path)
+            if alias != "_" and name not in self.used_pkgs:
+                self.add(line, f"\"{path}\" imported" + (f" as {alias}" if alias else "")
+                         + " and not used")
+        return self.problems
+
+    def check_type_name_text(self, text: str, line: int) -> None:
+        try:
+            t = _Parser("package p; type x " + text).parse_file().type_list[0].expr
+        except GoParseError:
+            return
+        self.check_type_expr(t, line)
+
+    def check_type_expr(self, t: Any, line: int) -> None:
+        k = t[0]
+        if k == "name":
+            n = t[1]
+            if self.lookup(n) is not None:
+                self.add(line, f"{n} is not a type")
+            elif n in self.gf.types:
+                pass
+            elif n in self.top:
+                self.add(line, f"{n} is not a type")
+            elif n not in _PREDECLARED_TYPES:
+                self.add(line, f"undefined: {n}")
+        elif k == "qual":
+            self.check_qualified(t[1], t[2], line, want_type=True)
+        elif k in ("ptr", "slice"):
+            self.check_type_expr(t[1], line)
+        elif k == "array":
+            saved, self.scopes = self.scopes, [{}]
+            self.walk_expr(t[1])
+            self.scopes = saved
+            n = _fold_const(t[1], {c.name: c.value for c in self.gf.consts})
+            if isinstance(n, bool) or not isinstance(n, int) or n < 0:
+                self.add(line, f"invalid array length {expr_str(t[1])}")
+            self.check_type_expr(t[2], line)
+        elif k == "struct":
+            names: Dict[str, int] = {}
+            for f in t[1]:
+                if f.name != "_":
+                    if f.name in names:
+                        self.add(f.line, f"duplicate field {f.name} (previous at line "
+                                         f"{names[f.name]})")
+                    names[f.name] = f.line
+                self.check_type_expr(f.type, f.line)
+        # interface / func types: not descended into
+
+    def check_qualified(self, pkg: str, name: str, line: int, want_type: bool = False) -> None:
+        if pkg not in self.pkg_names:
+            self.add(line, f"undefined: {pkg} (in {pkg}.{name})")
+            return
+        self.used_pkgs.add(pkg)
+        if not (name[:1].isupper()):
+            self.add(line, f"{pkg}.{name} refers to an unexported name")
+        imp = self.imported.get(pkg)
+        if imp is not None:
+            if name not in imp.top_level_names:
+                self.add(line, f"undefined: {pkg}.{name}")
+            elif want_type and name not in imp.types:
+                self.add(line, f"{pkg}.{name} is not a type")
+
+    # -- scopes -------------------------------------------------------------
+    def lookup(self, name: str) -> Optional[list]:
+        for sc in reversed(self.scopes):
+            if name in sc:
+                return sc[name]
+        return None
+
+    def declare(self, name: str, texpr: Any, line: int, kind: str = "var") -> None:
+        if name == "_" or not name:
+            return
+        sc = self.scopes[-1]
+        if name in sc:
+            self.add(line, f"{name} redeclared in this block")
+        sc[name] = [texpr, kind != "var", line, kind]
+
+    def push(self) -> None:
+        self.scopes.append({})
+
+    def pop(self) -> None:
+        sc = self.scopes.pop()
+        for name, (_t, used, line, kind) in sc.items():
+            if not used and kind == "var":
+                self.add(line, f"declared and not used: {name} (in {self.func_name})")
+
+    # -- functions ----------------------------------------------------------
+    def check_func(self, f: GoFunc) -> None:
+        self.func_name = f.qualname
+        self.scopes = [{}]
+        if f.recv_type is not None:
+            rt: Any = ("name", f.recv_type)
+            if f.recv_ptr:
+                rt = ("ptr", rt)
+            self.declare(f.recv_name or "_", ("", rt), f.line, "param")
+        names = set()
+        for (n, _), t in zip(f.params, f.param_types):
+            self.check_type_expr(t, f.line)
+            if n and n != "_":
+                if n in names or (f.recv_name and n == f.recv_name):
+                    self.add(f.line, f"duplicate argument {n} in {f.qualname}")
+                names.add(n)
+        for (n, _), t in zip(f.params, f.param_types):
+            if n and n != "_" and n not in self.scopes[-1]:
+                self.declare(n, ("", t), f.line, "param")
+        if f.result_type is not None and f.result_type[0] != "func":
+            self.check_type_expr(f.result_type, f.line)
+        # parameters live in the same block as the function body
+        for s in f.body:
+            self.walk_stmt(s)
+        self.pop()
+        self.scopes = []
+
+    def walk_block(self, stmts: List[tuple]) -> None:
+        self.push()
+        for s in stmts:
+            self.walk_stmt(s)
+        self.pop()
+
+    def walk_stmt(self, s: tuple) -> None:
+        k = s[0]
+        if k == "expr":
+            self.walk_expr(s[1])
+        elif k == "assign":
+            op, lhs, rhs = s[1], s[2], s[3]
+            for r in rhs:
+                self.walk_expr(r)
+            if op == ":=":
+                new = 0
+                for x in lhs:
+                    n = x[1]
+                    if n == "_":
+                        continue
+                    if n in self.scopes[-1]:
+                        continue
+                    new += 1
+                    t = self.static_type(rhs[0]) if len(lhs) == 1 and len(rhs) == 1 else None
+                    self.declare(n, t, s[-1])
+                if new == 0:
+                    self.add(s[-1], "no new variables on left side of :=")
+            else:
+                for x in lhs:
+                    if x[0] == "ident":
+                        if x[1] == "_":
+                            continue
+                        ent = self.lookup(x[1])
+                        if ent is None:
+                            self.walk_expr(x)  # reports undefined / resolves globals
+                    else:
+                        self.walk_expr(x)
+        elif k == "incdec":
+            if s[1][0] != "ident" or self.lookup(s[1][1]) is None:
+                self.walk_expr(s[1])
+        elif k == "return":
+            for x in s[1]:
+                self.walk_expr(x)
+        elif k == "if":
+            self.push()
+            if s[1] is not None:
+                self.walk_stmt(s[1])
+            self.walk_expr(s[2])
+            self.walk_block(s[3])
+            if s[4] is not None:
+                self.walk_stmt(s[4])
+            self.pop()
+        elif k == "switch":
+            self.push()
+            if s[1] is not None:
+                self.walk_stmt(s[1])
+            if s[2] is not None:
+                self.walk_expr(s[2])
+            seen: Dict[Any, int] = {}
+            ndefault = 0
+            consts = {c.name: c.value for c in self.gf.consts}
+            for exprs, body, line, _span in s[3]:
+                if exprs is None:
+                    ndefault += 1
+                    if ndefault > 1:
+                        self.add(line, "multiple defaults in switch")
+                else:
+                    for ce in exprs:
+                        self.walk_expr(ce)
+                        v = _fold_const(ce, consts) if s[2] is not None else None
+                        if v is not None:
+                            key = (type(v).__name__, v)
+                            if key in seen:
+                                self.add(line, f"duplicate case {expr_str(ce)} in switch "
+                                               f"(previous case at line {seen[key]})")
+                            else:
+                                seen[key] = line
+                self.walk_block(body)
+            self.pop()
+        elif k == "for":
+            self.push()
+            if s[1] is not None:
+                self.walk_stmt(s[1])
+            if s[2] is not None:
+                self.walk_expr(s[2])
+            if s[3] is not None:
+                self.walk_stmt(s[3])
+            self.walk_block(s[4])
+            self.pop()
+        elif k == "range":
+            self.walk_expr(s[4])
+            self.push()
+            for x in (s[1], s[2]):
+                if x is None:
+                    continue
+                if s[3]:
+                    if x[0] == "ident":
+                        self.declare(x[1], None, s[-1])
+                elif not (x[0] == "ident" and x[1] == "_"):
+                    self.walk_expr(x)
+            self.walk_block(s[5])
+            self.pop()
+        elif k == "block":
+            self.walk_block(s[1])
+        elif k in ("defer", "go"):
+            self.walk_expr(s[1])
+        elif k in ("var", "const"):
+            if s[2] is not None:
+                self.check_type_expr(s[2], s[-1])
+            if s[3] is not None:
+                self.walk_expr(s[3])
+            self.declare(s[1], ("", s[2]) if s[2] is not None else None, s[-1],
+                         "var" if k == "var" else "const")
+        # break / continue: nothing
+
+    # -- expressions --------------------------------------------------------
+    def walk_expr(self, e: tuple) -> None:
+        k = e[0]
+        if k == "ident":
+            n = e[1]
+            ent = self.lookup(n)
+            if ent is not None:
+                ent[1] = True
+                return
+            if n == "_":
+                self.add(e[-1], "cannot use _ as value")
+            elif n in self.top or n in _PREDECLARED:
+                return
+            elif n in self.pkg_names:
+                self.add(e[-1], f"use of package {n} without selector")
+            else:
+                self.add(e[-1], f"undefined: {n}")
+        elif k in ("int", "str"):
+            return
+        elif k == "sel":
+            base = e[1]
+            if base[0] == "ident" and self.lookup(base[1]) is None and base[1] not in self.top \
+                    and (base[1] in self.pkg_names or base[1] not in _PREDECLARED):
+                if base[1] in self.pkg_names:
+                    self.check_qualified(base[1], e[2], e[-1])
+                else:
+                    self.add(e[-1], f"undefined: {base[1]} (in {base[1]}.{e[2]})")
+                return
+            self.walk_expr(base)
+            bt = self.static_type(base)
+            if bt is not None:
+                self.check_member(bt, e[2], e)
+        elif k == "index":
+            self.walk_expr(e[1])
+            self.walk_expr(e[2])
+        elif k == "slice":
+            for x in (e[1], e[2], e[3]):
+                if x is not None:
+                    self.walk_expr(x)
+        elif k == "call":
+            self.walk_expr(e[1])
+            for a in e[2]:
+                self.walk_expr(a)
+        elif k == "unary":
+            self.walk_expr(e[2])
+        elif k == "binary":
+            self.walk_expr(e[2])
+            self.walk_expr(e[3])
+        elif k == "paren":
+            self.walk_expr(e[1])
+        elif k == "type":
+            self.check_type_expr(e[1], e[-1])
+        elif k == "complit":
+            is_seq = e[1] is not None and e[1][0] in ("array", "slice")
+            if e[1] is not None:
+                self.check_type_expr(e[1], e[-1])
+            for key, v in e[2]:
+                if key is not None and (is_seq or key[0] != "ident"):
+                    self.walk_expr(key)
+                self.walk_expr(v)
+
+    # -- light static typing for selector chains ------------------------------
+    # A static type is (pkg, type expression) with pkg '' for this file.
+    def static_type(self, e: tuple) -> Optional[Tuple[str, tuple]]:
+        k = e[0]
+        if k == "paren":
+            return self.static_type(e[1])
+        if k == "ident":
+            ent = self.lookup(e[1])
+            if ent is not None:
+                return ent[0]
+            return None
+        if k == "sel":
+            bt = self.static_type(e[1])
+            if bt is None:
+                return None
+            st = self.struct_of(bt)
+            if st is None:
+                return None
+            pkg, gt = st
+            for f in gt.fields:
+                if f.name == e[2]:
+                    return (pkg, f.type)
+            return None
+        if k == "index":
+            bt = self.static_type(e[1])
+            if bt is None:
+                return None
+            r = self.resolve_named(bt)
+            if r is None:
+                return None
+            pkg, t = r
+            if t[0] in ("array", "slice"):
+                return (pkg, t[-1])
+            return None
+        if k == "unary" and e[1] == "&":
+            bt = self.static_type(e[2])
+            return (bt[0], ("ptr", bt[1])) if bt is not None else None
+        if k == "complit" and e[1] is not None:
+            return ("", e[1])
+        return None
+
+    def file_of(self, pkg: str) -> Optional[GoFile]:
+        return self.gf if pkg == "" else self.imported.get(pkg)
+
+    def resolve_named(self, st: Tuple[str, tuple], depth: int = 0) -> Optional[Tuple[str, tuple]]:
+        """Follow type names to the underlying type expression."""
+        pkg, t = st
+        if depth > 20:
+            return None
+        if t[0] == "name":
+            gf = self.file_of(pkg)
+            if gf is None or t[1] not in gf.types:
+                return None
+            return self.resolve_named((pkg, gf.types[t[1]].expr), depth + 1)
+        if t[0] == "qual":
+            if pkg != "" or t[1] not in self.imported:
+                return None
+            return self.resolve_named((t[1], ("name", t[2])), depth + 1)
+        return (pkg, t)
+
+    def named_of(self, st: Tuple[str, tuple]) -> Optional[Tuple[str, str]]:
+        pkg, t = st
+        if t[0] == "ptr":
+            t = t[1]
+        if t[0] == "name":
+            return (pkg, t[1])
+        if t[0] == "qual" and pkg == "":
+            return (t[1], t[2])
+        return None
+
+    def struct_of(self, st: Tuple[str, tuple]) -> Optional[Tuple[str, GoType]]:
+        pkg, t = st
+        if t[0] == "ptr":
+            t = t[1]
+        nm = self.named_of((pkg, t))
+        if nm is None:
+            return None
+        gf = self.file_of(nm[0])
+        if gf is None:
+            return None
+        gt = gf.types.get(nm[1])
+        hops = 0
+        while gt is not None and gt.kind == "named" and hops < 20:
+            # `type A B`: fields come from B (methods do not)
+            r = self.named_of((nm[0], gt.expr))
+            if r is None:
+                return None
+            gf2 = self.file_of(r[0])
+            gt = gf2.types.get(r[1]) if gf2 else None
+            nm = r
+            hops += 1
+        if gt is None or gt.kind != "struct":
+            return None
+        return (nm[0], gt)
+
+    def check_member(self, bt: Tuple[str, tuple], name: str, e: tuple) -> None:
+        nm = self.named_of(bt)
+        if nm is None:
+            return
+        gf = self.file_of(nm[0])
+        if gf is None or nm[1] not in gf.types:
+            return
+        gt = gf.types[nm[1]]
+        methods = {f.name for f in gf.funcs if f.recv_type == nm[1]}
+        if name in methods:
+            return
+        st = self.struct_of(bt)
+        if st is not None:
+            if any(f.name == name for f in st[1].fields):
+                if nm[0] != "" and not name[:1].isupper():
+                    self.add(e[-1], f"{expr_str(e)}: field {name} of {nm[0]}.{nm[1]} is unexported")
+                return
+        elif gt.kind == "interface":
+            if any(n == name for n, _ in gt.expr[1]) or any(n is None for n, _ in gt.expr[1]):
+                return
+        elif gt.kind not in ("named", "array", "struct"):
+            return
+        self.add(e[-1], f"{expr_str(e)} undefined (type {type_str(bt[1])} has no field or method "
+                        f"{name})")
+
+
+def _bracket_problems(toks: List[Token]) -> List[str]:
+    pairs = {")": "(", "]": "[", "}": "{"}
+    stack: List[Tuple[str, int]] = []
+    out: List[str] = []
+    for t in toks:
+        if t[0] != "op":
+            continue
+        v = t[1]
+        if v in "([{" and len(v) == 1:
+            stack.append((v, t[2]))
+        elif v in pairs:
+            if not stack:
+                out.append(f"line {t[2]}: unbalanced {v!r} (no matching opening bracket)")
+            elif stack[-1][0] != pairs[v]:
+                o, ol = stack.pop()
+                out.append(f"line {t[2]}: {v!r} closes {o!r} opened at line {ol}")
+            else:
+                stack.pop()
+    for o, ol in stack:
+        out.append(f"line {ol}: unbalanced {o!r} (never closed)")
+    return out
+
+
+def static_check(gofile: GoFile, imported: Optional[Dict[str, GoFile]] = None) -> List[str]:
+    """Problems that make the Go toolchain reject the file (see module
+    documentation); an empty list means none found."""
+    return _Checker(gofile, imported).run()
+
+
+def static_check_text(text: str, imported: Optional[Dict[str, GoFile]] = None) -> List[str]:
+    """Like static_check but starting from source text; never raises on broken
+    input: lexical, bracket and syntax problems are returned as problems."""
+    try:
+        toks = tokenize(text)
+    except GoParseError as ex:
+        return [f"lexical error: {ex}"]
+    except Exception as ex:  # pragma: no cover - defensive
+        return [f"lexical error: {type(ex).__name__}: {ex}"]
+    probs = _bracket_problems(toks)
+    if probs:
+        return probs
+    try:
+        gf = parse_file(text)
+    except GoParseError as ex:
+        return [f"syntax error: {ex}"]
+    except RecursionError:
+        return ["syntax error: nesting too deep"]
+    except Exception as ex:  # pragma: no cover - defensive
+        return [f"internal parser error: {type(ex).__name__}: {ex}"]
+    try:
+        return static_check(gf, imported)
+    except Exception as ex:  # pragma: no cover - defensive
+        return [f"internal checker error: {type(ex).__name__}: {ex}"]
